@@ -835,6 +835,25 @@ func ruleDaemonLog(r *Run) {
 				}
 			}
 		}
+		// `err == io.EOF` taken as true also says that the header read failed (the sentinel is
+		// not nil), even when no `err != nil` test precedes it
+		for _, f := range e.State.free {
+			if !f.Truth {
+				continue
+			}
+			if b, ok := f.Cond.(*ssa.BinOp); ok && b.Op == token.EQL {
+				for _, x := range []ssa.Value{b.X, b.Y} {
+					if isErrorType(x.Type()) && errSourceCall(x) == ssa.CallInstruction(readFull) {
+						if sname, ok := isSentinelCompare(f.Cond, x); ok {
+							headerFailed, anyFail = true, true
+							if !okTrue {
+								cleanSentinels[sname] = true
+							}
+						}
+					}
+				}
+			}
+		}
 		calledParse := false
 		for _, c := range e.State.calls {
 			if pdl != nil && c.Call == ssa.CallInstruction(pdl) {
